@@ -498,6 +498,10 @@ def run(pid, tier, replay=None):
         body_calls = [c for c in built if c["verdict"] == "body"]
         sample = body_calls if tier == "thorough" else random.Random(vlib.seed()).sample(body_calls, min(25000, len(body_calls)))
         matrix_runs.append((builds[0][0] + "+gc", builds[0][1], sample, {"gc": {"every": 1, "force_full": True}}))
+        if tier == "quick":
+            # the release profile (no debug assertions, optimised): a sample of the matrix and all the families
+            rel = vlib.build_harness("release")
+            matrix_runs.append(("release", rel, random.Random(vlib.seed() + 1).sample(built, min(40000, len(built))), None))
     for label, binary, built_here, extra in matrix_runs:
         results, crashes = run_matrix(v, binary, built_here, label, extra=extra)
         for c in built_here:
